@@ -22,7 +22,7 @@ ASSUMPTIONS = ['flow sizes are multiples of the MSS (512)', 'completion is deman
                'every transmission']
 PROBES = ['sub_blackhole', 'second_connection', 'deadline_after_last_segment', 'synchronous_path', 'real_path', 'tail_drop_on_path', 'sub_sink', 'sub_e2e', 'sub_clean', 'rto_fired', 'fast_retransmit', 'ack_lost', 'data_lost', 'duplicate_delivered',
           'overtaken', 'cc_cubic', 'completed', 'inconclusive', 'first_segment_missing', 'sink_duplicate', 'sink_gap',
-          'clean_precondition_held']
+          'clean_precondition_held', 'flow_without_a_full_segment', 'flow_without_finish_time']
 
 
 def gen(rng, tier):
@@ -85,6 +85,14 @@ def gen(rng, tier):
     if rng.random() < 0.08:
         # the flow's finish_time passes right after the last new segment went out: repairs must go on
         case['deadline'] = rng.choice([0.001, 0.01, 0.5])
+    if rng.random() < 0.05:
+        # a flow without a single full segment: size 0, or less than one MSS - nothing may be sent, nothing invented
+        case['segments'] = 0
+        case['tail'] = rng.choice([0, 0, 100, MSS - 1])
+        case.pop('deadline', None)
+    if rng.random() < 0.1 and not case.get('deadline'):
+        # a Flow built without a finish time (the dataclass default): it simply never expires
+        case['no_finish'] = True
     if r < 0.4 and not case.get('path'):
         case['sub'] = 'clean'
         if not case.get('short_path'):
@@ -102,7 +110,7 @@ def gen(rng, tier):
 def valid(case):
     if case.get('sub') == 'sink':
         return all(isinstance(x, int) and x >= 0 for x in case.get('arrivals', []))
-    return case.get('segments', 1) >= 1
+    return case.get('segments', 1) >= 0
 
 
 class AckRec:
@@ -309,6 +317,15 @@ def run_e2e(w, case):
             stats['rto_fired'] = 1
     # (b) completion
     done = sink.recv_buffer == [[0, size]] and sender.last_ack == size
+    if n == 0:
+        stats['flow_without_a_full_segment'] = 1
+        done = not have and sender.last_ack == 0
+        sent = [r for r in w.log if r[0] == 'SEG']
+        if sent:
+            viol.append(('C16.4', 'a flow of %d bytes (no full segment) made the sender transmit %d segments, the first '
+                         'with sequence number %r' % (case.get('tail', 0), len(sent), sent[0][3])))
+    if case.get('no_finish'):
+        stats['flow_without_finish_time'] = 1
     bound = last_fault_t + 64 * n * max(max_rto, rtt, 1.0)
     if done:
         stats['completed'] = 1
